@@ -19,7 +19,7 @@ RULE = ('one descriptor = (device profile, api sync/async, trigger kind in {link
         'signature) among runs in which the trigger actually fired.')
 ASSUMPTIONS = ['link errors are reported the two ways RadioDriver does: from its own thread, or from inside send_packet '
                'in the calling thread', 'virtual-time horizon of 150 s per blocking call stands in for "bounded time"']
-REQUIRED = ['mon.reconnects_at_once_while_application_threads_stream_setpoints', 'mon.runs_with_the_link_ending_around_the_packet_that_completes_the_set_up', 'mon.change_notifications_during_the_value_download', 'mon.stale_item_answers_right_in_front_of_the_table_info_answer', 'mon.reconnects_issued_at_once_from_the_failure_notification', 'mon.attempts_with_duplicated_answers', 'mon.close_in_a_port_or_parameter_callback_of_the_application', 'mon.attempts', 'mon.trigger_fired', 'mon.reconnects', 'mon.fault_before_first_packet',
+REQUIRED = ['mon.reconnects_at_once_while_an_application_thread_registers_requests_for_retransmission', 'mon.reconnects_at_once_while_application_threads_stream_setpoints', 'mon.runs_with_the_link_ending_around_the_packet_that_completes_the_set_up', 'mon.change_notifications_during_the_value_download', 'mon.stale_item_answers_right_in_front_of_the_table_info_answer', 'mon.reconnects_issued_at_once_from_the_failure_notification', 'mon.attempts_with_duplicated_answers', 'mon.close_in_a_port_or_parameter_callback_of_the_application', 'mon.attempts', 'mon.trigger_fired', 'mon.reconnects', 'mon.fault_before_first_packet',
             'mon.fault_mid_setup', 'mon.fault_after_connected', 'mon.close_in_callback', 'mon.sync_api', 'mon.async_api',
             'mon.line_preempted_runs', 'mon.three_cycle_histories', 'mon.fault_during_driver_connect']
 DESC_TIMEOUT = 1500
@@ -28,7 +28,7 @@ BATCHES_PER_JOB = 4
 LIFE = ('link_established', 'connected', 'fully_connected')
 # statements of the code that handles the end of a connection are pre-empted more often in half of the pre-empted runs
 FOCUS = ('_disconnected', '_connected', '_connect_failed', '_all_params_updated', 'open_link', 'close_link', '_link_error_cb',
-         '_remove_callbacks', '_add_callbacks', 'wait_for_params')
+         '_remove_callbacks', '_add_callbacks', 'wait_for_params', '_check_for_answers', '_cancel_pending_answers')
 
 
 def _mems(kind):
@@ -70,7 +70,7 @@ def cases(tier, seed):
                             'resend': False, 'prefault': False, 'drain': n % 2 == 1, 'dup': False, 'at_connected': True})
     for i, (nlog, nparam, proto, mk) in enumerate(profiles):
         for reporter in ('sender', 'driver'):
-            for (pol, lp) in (scheds if tier == 'thorough' else scheds[:2]):
+            for (pol, lp) in (scheds if tier == 'thorough' else (scheds[0], scheds[2], scheds[4])):
                 n += 1
                 out.append({'part': 'autoreconnect', 'seed': seed * 1000003 + n, 'nlog': nlog, 'nparam': nparam, 'proto': proto, 'mems': mk,
                             'reporter': reporter, 'sched': pol, 'line_p': lp, 'resend': n % 3 == 0, 'kmax': 10, 'stream': n % 2 == 0})
@@ -624,6 +624,24 @@ def run_autoreconnect(desc, ctx):
                                 ob.setdefault('stream_exc', repr(e)[:200])
                             s.sleep(0.003)
                     streamers = [threading.Thread(target=streamer) for _ in range(2)]
+                    if desc['resend']:
+                        # ... and one that keeps asking an application port for something (requests with an expected answer
+                        # on a link without delivery guarantee: they are registered for retransmission while packets come in)
+                        def poller():
+                            from cflib.crtp.crtpstack import CRTPPacket
+                            for n_ in range(40):
+                                if stop['on']:
+                                    break
+                                pk_ = CRTPPacket()
+                                pk_.set_header(9, 1)
+                                pk_.data = bytes([0x40 + n_ % 64, n_])
+                                try:
+                                    cf.send_packet(pk_, expected_reply=(0x40 + n_ % 64, n_), timeout=1.0)
+                                    ob['polled'] = ob.get('polled', 0) + 1
+                                except Exception as e:  # noqa
+                                    ob.setdefault('stream_exc', repr(e)[:200])
+                                s.sleep(0.001)
+                        streamers.append(threading.Thread(target=poller))
                     for t_ in streamers:
                         t_.start()
                 full.wait(200.0)
@@ -640,7 +658,7 @@ def run_autoreconnect(desc, ctx):
                 cf.close_link()
                 s.sleep(0.5)
             _, abort, sch = harness.sched_case(fn, seed=desc['seed'] * 13 + k, policy=desc['sched'], line_p=desc['line_p'], horizon=1500.0,
-                                               max_steps=12_000_000)
+                                               max_steps=12_000_000, line_focus=FOCUS, line_focus_p=0.35 if desc['line_p'] > 0 else 0.0)
             ctx.evals()
             rp = dict(desc, only_k=k)
             if abort is not None and not ob.get('faults') and spec.faults_fired:
@@ -653,6 +671,8 @@ def run_autoreconnect(desc, ctx):
             ctx.count('mon.reconnects_issued_at_once_from_the_failure_notification')
             if ob.get('streamed'):
                 ctx.count('mon.reconnects_at_once_while_application_threads_stream_setpoints')
+            if ob.get('polled'):
+                ctx.count('mon.reconnects_at_once_while_an_application_thread_registers_requests_for_retransmission')
             if ob.get('stream_exc'):
                 ctx.violate('R8:setpoint-sender-got-an-exception', {'error': ob['stream_exc'], 'k': k}, replay=rp)
             names = [e[0] for e in ob['ev']]
